@@ -222,6 +222,7 @@ func Finish(run *ev.Run, jobs []sched.Job, res sched.ShardResult, o FinishOpts) 
 		"inconclusive_deadlock":         m.Deadlocks,
 		"inconclusive_horizon":          m.Horizons,
 		"distinct_outcomes":             distinct,
+		"outcomes":                      topOutcomes(m.Outcomes, 40),
 		"bounds":                        o.Bounds,
 		"rule":                          o.Rule + "; states = distinct nodes of the schedule trees, transitions = seam events executed on the real code (incl. replayed prefixes), every execution is an implementation run",
 		"samples":                       m.Samples,
@@ -230,4 +231,28 @@ func Finish(run *ev.Run, jobs []sched.Job, res sched.ShardResult, o FinishOpts) 
 		cov["samples"] = []any{"(no execution finished)"}
 	}
 	run.Finish(cov, o.Assumptions)
+}
+
+func topOutcomes(m map[string]int64, n int) map[string]int64 {
+	type kv struct {
+		k string
+		v int64
+	}
+	var l []kv
+	for k, v := range m {
+		l = append(l, kv{k, v})
+	}
+	sort.Slice(l, func(i, j int) bool { return l[i].v > l[j].v || (l[i].v == l[j].v && l[i].k < l[j].k) })
+	out := map[string]int64{}
+	for i, e := range l {
+		if i >= n {
+			break
+		}
+		k := e.k
+		if len(k) > 160 {
+			k = k[:160]
+		}
+		out[k] += e.v
+	}
+	return out
 }
